@@ -11,6 +11,12 @@ VERIF = os.path.dirname(os.path.dirname(os.path.abspath(__file__)))
 MC = "model_checking"
 
 CLAIMS = {
+    "C18": dict(
+        engine="NixUpgrade",
+        technique="TLA+ spec NixUpgrade (tool + crash + re-run; safety and liveness checked by TLC) + every maximal behaviour executed on a crafted old-format file with the tool killed between steps, representation state compared after every run",
+        text="NixUpgrade models the header version, file id and the representation of every property and self-referencing range dimension, the tool's planning from the current file, one step per append-mode open, the version bump last, a kill between any two steps and re-runs; TLC checks VersionLast, Idempotent, OldStillRecognised, Monotone, PlanOK and, under fairness, Completes. Every maximal behaviour is executed: the initial old-format file is crafted with h5py, each run is a forked child killed at its k-th append-mode open, the representation state read with h5py must equal the specification state after every run, and the completed file must be writable, need no further task, read with the same content as before down-conversion (extras retrievable) and stay byte-identical under a further run.",
+        note="Trusted: TLC; the h5py crafting of format-1.1.0 files; kill points are the append-mode opens (one per step); interruption inside a step is excluded by the property.",
+        design_ref="6/C18"),
     "C14": dict(
         engine="NixValidate",
         technique="TLA+ spec NixValidate (abstract files with injected inconsistencies, expected error classes per object; laws checked by TLC) + every abstract file built for real and File.validate() compared per object",
